@@ -782,7 +782,7 @@ class Interpreter(Interp):
                 raise exc("AttributeError", attr)
             raise OutOfReach(f"exception attribute {attr}")
         if isinstance(obj, (dict, list, set, str, tuple, SymPySet)):
-            key = ("SymPySet" if isinstance(obj, SymPySet) else type(obj).__name__, attr)
+            key = ("SymPySet" if isinstance(obj, SymPySet) else ("dict" if isinstance(obj, dict) else type(obj).__name__), attr)
             m = _CONCRETE_METHODS.get(key)
             if m is None:
                 if isinstance(obj, (str, tuple)) and hasattr(obj, attr):
@@ -1253,8 +1253,30 @@ SYMVIEW_KEY = "__pyvc_symbolic_part__"
 def _dict_update(interp, d, other=None, **kw):
     if isinstance(other, MapView):
         # a local dict receiving the content of a symbolic map: keep a private copy as its 'symbolic part'
-        if d:
-            raise OutOfReach("dict.update(symbolic map) on a non-empty local dict")
+        from .values import FieldsDict
+        if isinstance(d, FieldsDict) and "__symdict__" not in d:
+            # obj.__dict__.update(symbolic map): from now on the instance dictionary is a symbolic map - the map's entries,
+            # plus the attributes the object already had under the names the map does not contain
+            sd = _map_copy(interp, other)
+            for k in [k for k in d if isinstance(k, str) and not k.startswith("_")]:
+                key = PartV(part_const(k))
+                if not interp.eng.branch(other.has(key), f"update.overrides[{k}]"):
+                    sd.setitem(key, d[k])
+                del d[k]
+            d["__symdict__"] = sd
+            return
+        if SYMVIEW_KEY in d:
+            raise OutOfReach("dict.update(symbolic map) on a local dict that already has a symbolic part")
+        # entries the dict already has are overwritten by the map's entries of the same key (decided per key by branching);
+        # the other keys of the map become the dict's 'symbolic part' (consulted after the concrete entries)
+        for k in list(d.keys()):
+            kk = k.key if isinstance(k, SymKey) else k
+            try:
+                present = other.has(kk)
+            except OutOfReach:
+                continue    # a key of another sort cannot be in the map
+            if interp.eng.branch(present, f"update.overrides[{kk}]"):
+                d[k] = other.getitem(kk)
         d[SYMVIEW_KEY] = _map_copy(interp, other)
         return
     if other is not None:
